@@ -7,6 +7,28 @@ HERE = os.path.dirname(os.path.dirname(os.path.abspath(__file__)))
 
 ALL = ["C%02d" % i for i in range(1, 21)]
 
+# what wave 9 added to the explored space (DESIGN.md section 12, "added in wave 9")
+_LIVE = ("  Every state is reached a third way: the parent state is built, written, validated and queried, and the last edit is made "
+         "on that same live object.")
+WAVE9 = {
+    "C01": _LIVE + "  Edits also change the arch set of an existing variant (one more, one fewer, one exchanged) and delete a childless variant (looked up by UID first).",
+    "C02": _LIVE + "  Descriptions the rules refuse today (additional variants on a non-unified image) are offered too: whatever the library agrees to write must come back.",
+    "C04": _LIVE + "  A .discinfo is also read by a reader that has read another one before.",
+    "C17": _LIVE,
+    "C03": "  Every history is repeated with the manifest written and re-read into itself before the last add.",
+    "C05": "  Another reader of the class loads and writes a current-format file before every older document; a dashed top-level variant with children (pre-1.0 prefix discovery).",
+    "C06": "  Every triple is evaluated twice: on a new object and on an object that was written successfully just before the value was put in.",
+    "C07": "  Before every damaged document another reader loads and writes a valid one and the reader under test is queried; values borrowed from same-named keys elsewhere in the document are tried at every position with a documented domain.",
+    "C09": "  A refused add is repeated at once; documents that file one image of a colliding pair under the legacy 'src' arch.",
+    "C10": "  A refused add is repeated at once and once more for another entry.",
+    "C11": "  A refused add is repeated at once; an in-forest ancestor is re-added below its descendants with a re-aligned UID (only the cycle check can refuse it).",
+    "C12": "  A refused call is repeated at once; every history is repeated with the manifest re-read into itself before the last call; dump_for_tree bases equal to and below a stored path.",
+    "C16": "  Tables of several checksum paths filled in every order (through add() and directly), an absolute path at every position among them.",
+    "C18": "  Pre-state written by the same object; destinations given as os.PathLike; dump_for_tree handed a path; non-ASCII text dumped to a path under an ASCII locale.",
+    "C19": "  Growth per pump is measured in the real engine from 20 pumps on until the time guard; manifest tables nested n levels deep are structural families.",
+    "C20": "  Junk header versions that do not begin with a digit.",
+}
+
 # id -> (category, technique, level text, level note, design ref)
 CHECKS = {
     "C05": ("model_checking",
@@ -217,7 +239,7 @@ def main():
             "evidence_file": "/verif/evidence/%s.json" % pid,
             "replay_cmd_template": "./check %s --replay {path}" % pid,
             "engine": "mc-explorer",
-            "level_claimed": {"category": cat, "text": text, "design_ref": ref},
+            "level_claimed": {"category": cat, "text": text + WAVE9.get(pid, ""), "design_ref": ref},
             "level_note": note,
             "technique": tech,
         })
